@@ -6,6 +6,7 @@ use serde_json::Value;
 pub mod arch;
 pub mod tarc;
 pub mod canon;
+pub mod fsim;
 
 pub struct ScenDef {
     pub name: &'static str,
@@ -25,7 +26,7 @@ pub fn no_shrink(_: &Value) -> Vec<Value> {
 
 pub fn no_init(_: &str) {}
 
-pub static ALL: &[&ScenDef] = &[&arch::DEF, &tarc::DEF, &canon::DEF];
+pub static ALL: &[&ScenDef] = &[&arch::DEF, &tarc::DEF, &canon::DEF, &fsim::DEF];
 
 pub fn for_prop(prop: &str) -> Option<&'static ScenDef> {
     ALL.iter().copied().find(|d| d.props.contains(&prop))
